@@ -171,6 +171,12 @@ class KernRun:
                                                    "queries": len(jobs)})
         for a in sorted(eng.assumed):
             rep.assume(a)
+        for st in ("np.zeros (fresh zero array of the given shape)", "np.empty (fresh array, arbitrary content)",
+                   "np.asarray (same data)", "len(memoryview) = shape[0]", "max/min/fabs (exact)",
+                   "cos/sin/sqrt/acos/atan2 (uninterpreted)", "openmp.omp_get_num_procs (int >= 1)"):
+            rep.stubs.add(st)
+        rep.extra["contracts_used"] = sorted({getattr(vc, "contract_key", "") for _, _, vc in vcs})
+        rep.extra["calls_by_contract"] = sorted("%s -> %s" % c for c in eng.calls)
         return vcs
 
     # ------------------------------------------------------------------------------------------
